@@ -49,7 +49,7 @@ def run(ctx):
     x10(ctx, R)
     x11(ctx, R)
     x12(ctx, R)
-    x14(ctx, R)
+    x15(ctx, R)
     x13(ctx, R)
     x14(ctx, R)
     l7(ctx, R)
@@ -1367,14 +1367,14 @@ def x11(ctx, R):
             ctx.violation("X11", ln, "lineno-formula", "curlineno is %s, not 1 + number of newlines before the position" % t, node=ln.node)
 
 
-# ------------------------------------------------------------------------------- X14
-def x14(ctx, R):
+# ------------------------------------------------------------------------------- X15
+def x15(ctx, R):
     """The position functions rescan the text up to the current offset (one pass each): called once per token they make parsing
     quadratic.  Outside the funnel's handler they may only run under the debug switch."""
-    ctx.rule("X14", "linear rescans of the text (curlineno / curcolno) are not performed per token: only in the handler or under `debug`")
+    ctx.rule("X15", "linear rescans of the text (curlineno / curcolno) are not performed per token: only in the handler or under `debug`")
     from .c18 import position_helpers
     helpers = position_helpers(R)
-    tr, _caught = funnel(ctx, R, "X14")
+    tr, _caught = funnel(ctx, R, "X15")
     n = 0
     bad = 0
     for f in [R.parse] + [g for g in R.reachable() if g.cls is R.Parser and g is not R.parse]:
@@ -1401,11 +1401,11 @@ def x14(ctx, R):
             if nodes and all(cfg.guarded(x, debug_on) for x in nodes):
                 continue
             bad += 1
-            ctx.violation("X14", f, "rescan-per-token:%s" % c.func.attr, "%s calls %s outside the error handler and not under the debug switch: every "
+            ctx.violation("X15", f, "rescan-per-token:%s" % c.func.attr, "%s calls %s outside the error handler and not under the debug switch: every "
                           "token rescans the text before it, parsing time grows with the square of the script size" % (f.qualname, norm(c)[:40]),
                           node=c, witness="a 200 KB script takes tens of times longer than eight 25 KB ones")
     if not bad:
-        ctx.holds("X14", "%d calls of the position functions outside the handler, each under the debug switch" % n if n else
+        ctx.holds("X15", "%d calls of the position functions outside the handler, each under the debug switch" % n if n else
                   "the position functions are called only in the funnel's handler")
 
 
